@@ -39,6 +39,13 @@ type Solver struct {
 	// defined-sets per push level so that pop forgets definitions made inside
 	defStack []map[int]bool
 	scopes   []scope
+	// hist is the script that reproduces the current assertion stack in a
+	// fresh solver (declarations, definitions, assertions, pushes); it feeds
+	// the fallback solvers when the main process answers unknown.
+	hist      []string
+	noHist    bool
+	Fallbacks [3]int // fallback verdicts by Result
+	NoFallback bool
 }
 
 // NewSolver starts a solver. kind is "z3", "z3-new" or "cvc5".
@@ -65,6 +72,8 @@ func NewSolver(kind string, ctx *Ctx, timeoutMs int, seed int) (*Solver, error) 
 		return nil, err
 	}
 	s := &Solver{Name: kind, cmd: cmd, in: in, out: bufio.NewReaderSize(out, 1<<20), ctx: ctx, pr: NewPrinter(), TimeoutMs: timeoutMs}
+	s.noHist = true
+	defer func() { s.noHist = false }()
 	if kind != "cvc5" {
 		s.send("(set-option :produce-models true)")
 		s.send(fmt.Sprintf("(set-option :timeout %d)", timeoutMs))
@@ -77,6 +86,9 @@ func NewSolver(kind string, ctx *Ctx, timeoutMs int, seed int) (*Solver, error) 
 }
 
 func (s *Solver) send(line string) {
+	if !s.noHist {
+		s.hist = append(s.hist, line)
+	}
 	if s.Log != nil {
 		fmt.Fprintln(s.Log, line)
 	}
@@ -102,6 +114,9 @@ func (s *Solver) Close() {
 // Reset forgets all assertions and definitions (start of a new path).
 func (s *Solver) Reset(ctx *Ctx) {
 	s.ctx = ctx
+	s.hist = s.hist[:0]
+	s.noHist = true
+	defer func() { s.noHist = false }()
 	s.send("(reset)")
 	if s.Name != "cvc5" {
 		s.send("(set-option :produce-models true)")
@@ -145,14 +160,16 @@ func (s *Solver) Assert(t *Term) {
 type scope struct {
 	declSent int
 	defined  []int
+	histLen  int
 }
 
 // Push opens a scope: assertions, declarations and definitions made until the
 // matching Pop are forgotten by both the solver and the printer.
 func (s *Solver) Push() {
 	s.syncDecls()
+	hl := len(s.hist)
 	s.send("(push 1)")
-	s.scopes = append(s.scopes, scope{declSent: s.declSent})
+	s.scopes = append(s.scopes, scope{declSent: s.declSent, histLen: hl})
 	s.pr.track = &s.scopes[len(s.scopes)-1].defined
 }
 
@@ -160,7 +177,10 @@ func (s *Solver) Pop() {
 	n := len(s.scopes) - 1
 	sc := s.scopes[n]
 	s.scopes = s.scopes[:n]
+	s.noHist = true
 	s.send("(pop 1)")
+	s.noHist = false
+	s.hist = s.hist[:sc.histLen]
 	for _, id := range sc.defined {
 		delete(s.pr.defined, id)
 	}
@@ -220,6 +240,7 @@ func (s *Solver) CheckWith(extra ...*Term) Result {
 		refs[i] = s.define(t)
 	}
 	start := time.Now()
+	s.noHist = true
 	s.send("(push 1)")
 	for _, r := range refs {
 		s.send("(assert " + r + ")")
@@ -227,6 +248,10 @@ func (s *Solver) CheckWith(extra ...*Term) Result {
 	s.send("(check-sat)")
 	res := s.readResult()
 	s.send("(pop 1)")
+	s.noHist = false
+	if res == Unknown {
+		res, _ = s.fallback(refs, nil)
+	}
 	el := time.Since(start)
 	if s.Log != nil && el > 20*time.Millisecond {
 		fmt.Fprintf(s.Log, "; SLOW %v\n", el)
@@ -247,6 +272,8 @@ func (s *Solver) ModelWith(extra []*Term, want []*Term) (Result, []*big.Int) {
 		wrefs[i] = s.define(t)
 	}
 	start := time.Now()
+	s.noHist = true
+	defer func() { s.noHist = false }()
 	s.send("(push 1)")
 	for _, r := range refs {
 		s.send("(assert " + r + ")")
@@ -254,6 +281,14 @@ func (s *Solver) ModelWith(extra []*Term, want []*Term) (Result, []*big.Int) {
 	s.send("(check-sat)")
 	res := s.readResult()
 	var vals []*big.Int
+	if res == Unknown {
+		s.send("(pop 1)")
+		res, vals = s.fallback(refs, wrefs)
+		el := time.Since(start)
+		s.Time += el
+		s.Queries[res]++
+		return res, vals
+	}
 	if res == Sat && len(want) > 0 {
 		vals = make([]*big.Int, len(want))
 		// one get-value per term keeps parsing trivial
@@ -350,4 +385,131 @@ func parseValue(resp string) *big.Int {
 		}
 	}
 	return nil
+}
+
+
+// fallback re-runs the current query (assertion stack + extra assertions) in
+// fresh one-shot processes of the other installed solvers. The main process
+// answered unknown - a timeout, a resource limit or an error; a fresh process
+// has none of its accumulated state and the other solvers use different
+// heuristics. Any error line keeps the answer unknown.
+func (s *Solver) fallback(refs, wrefs []string) (Result, []*big.Int) {
+	if s.NoFallback {
+		return Unknown, nil
+	}
+	var order []string
+	switch s.Name {
+	case "z3":
+		order = []string{"z3-new", "cvc5"}
+	case "z3-new":
+		order = []string{"z3", "cvc5"}
+	default:
+		order = []string{"z3-new", "z3"}
+	}
+	for _, kind := range order {
+		var sb strings.Builder
+		var cmd *exec.Cmd
+		secs := s.TimeoutMs/1000 + 5
+		if kind == "cvc5" {
+			cmd = exec.Command("timeout", fmt.Sprint(secs+5), "cvc5", "--lang=smt2", "--produce-models", "--incremental", fmt.Sprintf("--tlimit-per=%d", s.TimeoutMs))
+			sb.WriteString("(set-logic ALL)\n")
+		} else {
+			cmd = exec.Command("timeout", fmt.Sprint(secs+5), kind, "-in", "-smt2")
+			sb.WriteString("(set-option :produce-models true)\n")
+			sb.WriteString(fmt.Sprintf("(set-option :timeout %d)\n", s.TimeoutMs))
+		}
+		for _, l := range s.hist {
+			sb.WriteString(l)
+			sb.WriteByte('\n')
+		}
+		for _, r := range refs {
+			sb.WriteString("(assert " + r + ")\n")
+		}
+		sb.WriteString("(check-sat)\n")
+		cmd.Stdin = strings.NewReader(sb.String())
+		// first pass: verdict only (get-value after unsat would be an error line)
+		out, _ := cmd.Output()
+		text := string(out)
+		if strings.Contains(text, "(error") {
+			continue
+		}
+		verdict := strings.TrimSpace(text)
+		var res Result
+		switch verdict {
+		case "sat":
+			res = Sat
+		case "unsat":
+			res = Unsat
+		default:
+			continue
+		}
+		if res == Unsat || len(wrefs) == 0 {
+			s.Fallbacks[res]++
+			if s.Log != nil {
+				fmt.Fprintf(s.Log, "; FALLBACK %s -> %v\n", kind, res)
+			}
+			return res, nil
+		}
+		// sat and values wanted: second pass with get-value lines
+		for _, r := range wrefs {
+			sb.WriteString("(get-value (" + r + "))\n")
+		}
+		var cmd2 *exec.Cmd
+		if kind == "cvc5" {
+			cmd2 = exec.Command("timeout", fmt.Sprint(secs+5), "cvc5", "--lang=smt2", "--produce-models", "--incremental", fmt.Sprintf("--tlimit-per=%d", s.TimeoutMs))
+		} else {
+			cmd2 = exec.Command("timeout", fmt.Sprint(secs+5), kind, "-in", "-smt2")
+		}
+		cmd2.Stdin = strings.NewReader(sb.String())
+		out2, _ := cmd2.Output()
+		text2 := string(out2)
+		if strings.Contains(text2, "(error") || !strings.HasPrefix(strings.TrimSpace(text2), "sat") {
+			continue
+		}
+		rest := strings.TrimSpace(strings.TrimPrefix(strings.TrimSpace(text2), "sat"))
+		sexps := splitSexps(rest)
+		if len(sexps) != len(wrefs) {
+			continue
+		}
+		vals := make([]*big.Int, len(wrefs))
+		ok := true
+		for i, e := range sexps {
+			vals[i] = parseValue(e)
+			if vals[i] == nil {
+				ok = false
+			}
+		}
+		if !ok {
+			continue
+		}
+		s.Fallbacks[Sat]++
+		if s.Log != nil {
+			fmt.Fprintf(s.Log, "; FALLBACK %s -> sat with model\n", kind)
+		}
+		return Sat, vals
+	}
+	s.Fallbacks[Unknown]++
+	return Unknown, nil
+}
+
+// splitSexps splits a text into its top-level balanced s-expressions.
+func splitSexps(t string) []string {
+	var out []string
+	depth, start := 0, -1
+	for i, c := range t {
+		switch c {
+		case '(':
+			if depth == 0 {
+				start = i
+			}
+			depth++
+		case ')':
+			depth--
+			if depth == 0 && start >= 0 {
+				out = append(out, t[start:i+1])
+				start = -1
+			}
+		}
+	}
+	return out
 }
